@@ -469,7 +469,7 @@ static bool vacuousTolerance(const Problem& p, double accuracy) { return accurac
 
 int main(int argc, char** argv) {
     verif::Run run("C20", argc, argv);
-    run.setDeadline(1200, 5400);   // safety net only: quick needs ~20-40 s on 16 idle cores (about 320 CPU-s), see notes
+    run.setDeadline(1200, 3600);   // safety net only: quick needs ~20-40 s on 16 idle cores (about 320 CPU-s), see notes
     const bool thorough = run.thorough();
     std::vector<int> vss; if (thorough) vss = {0, 1, 2}; else vss = {(int)(((run.seed % 3) + 3) % 3)};
     const double ACC[4] = {1e-2, 1e-4, 1e-6, 1e-8};
